@@ -644,3 +644,58 @@ func sortStrings(s []string) {
 		}
 	}
 }
+
+// r17NegotiationWritesThroughTheTokenWriter (C04.18): during negotiation the
+// connection's deadlines belong to negotiateSession's watcher, which keeps the
+// expired deadline in force from the moment the context ends until the step
+// returns. The transmit API of an established session (Send, Encode, SendIQ
+// and their variants) arms a watcher of its own that RESETS the write deadline
+// when its context ends: called from a feature's Negotiate it wipes out the
+// expired deadline and the cancelled negotiation blocks in the write for
+// ever. Negotiation code writes through Session.TokenWriter (or the
+// connection); no function of the negotiation set calls the transmit API.
+func r17NegotiationWritesThroughTheTokenWriter(c *cx, id string, fns []*eng.Fn) int {
+	n := 0
+	for _, f := range fns {
+		n++
+		bad := ""
+		for _, cl := range f.AllCalls() {
+			cid := f.CalleeID(cl)
+			if !strings.HasPrefix(cid, "xmpp.Session.") {
+				continue
+			}
+			m := strings.TrimPrefix(cid, "xmpp.Session.")
+			if strings.HasPrefix(m, "Send") || strings.HasPrefix(m, "Encode") || strings.HasPrefix(m, "UnmarshalIQ") || strings.HasPrefix(m, "IterIQ") {
+				bad = cid + " at " + f.Prog.Pos(cl.Pos())
+			}
+		}
+		if bad != "" {
+			c.r.Check(id, f, "transmit API used during negotiation", "C: negotiation code does not call Session.Send* / Encode* (their deadline watcher resets the write deadline that cancellation relies on)", f.Pos(), false, "calls "+bad)
+		}
+	}
+	c.r.Check(id, nil, "negotiation functions scanned for calls of the transmit API", "C: negotiation code does not call Session.Send* / Encode*", token.NoPos, true, "")
+	return n
+}
+
+// r17RawTokenReaderStateless (C13.41): the reader that turns the raw tokens of
+// the standard marshaller's output into tokens for the session rewrites the
+// xml: prefix on EVERY start element that carries it (a stanza's own xml:lang,
+// a second <body xml:lang=...>, the texts of a stanza error): its Token method
+// keeps nothing between tokens - it stores into no field of its receiver.
+func r17RawTokenReaderStateless(c *cx, id string) {
+	n := 0
+	for _, f := range c.allFns() {
+		if !strings.HasPrefix(f.Short, "internal/marshal.") || !strings.Contains(f.Short, "rawTokenReader") {
+			continue
+		}
+		n++
+		bad := ""
+		for _, w := range f.Writes() {
+			if k, isF := f.FieldClass(w.LHS); isF && strings.HasPrefix(k, "internal/marshal.rawTokenReader.") {
+				bad = "stores into " + k + " at " + f.Prog.Pos(w.Stmt.Pos())
+			}
+		}
+		c.r.Check(id, f, "state of the raw token reader", "E-eff: no method of rawTokenReader stores into the receiver", f.Pos(), bad == "", bad+": what it did for one element changes what it does for the next")
+	}
+	c.r.Floor(id, "methods of rawTokenReader", n, 1)
+}
